@@ -17,7 +17,7 @@ def driver():
 
 SAN_ENV = {"ASAN_OPTIONS": "detect_leaks=1:abort_on_error=0:exitcode=99:allocator_may_return_null=1",
            "UBSAN_OPTIONS": "print_stacktrace=0:halt_on_error=1:exitcode=98",
-           "LSAN_OPTIONS": "exitcode=97"}
+           "LSAN_OPTIONS": "exitcode=97", "MSAN_OPTIONS": "exitcode=95"}
 
 
 def run_proc(cmd, lines, timeout, env_extra=None, limit_cpu=None, limit_mem=None):
@@ -106,7 +106,7 @@ def bisect_exit_failure(cmd, lines, timeout):
 
 def summarize(err):
     for ln in err.split("\n"):
-        if "runtime error" in ln or "ERROR: AddressSanitizer" in ln or "ERROR: LeakSanitizer" in ln \
+        if "runtime error" in ln or "ERROR: AddressSanitizer" in ln or "ERROR: LeakSanitizer" in ln or "MemorySanitizer" in ln \
                 or "SUMMARY" in ln or "TIMEOUT" in ln:
             return ln.strip()[:200]
     return (err.strip().split("\n") or [""])[0][:200]
